@@ -225,6 +225,30 @@ void run_C06(vh::Ctx& c) {
       for (int q = 0; q < d * d; q++) if (!(std::fabs(X1[q] - X2[q]) <= 2 * tw)) { c.violation(vh::fmt("C06:WeightedRotation:d%d:overloads-disagree", d), what + vh::fmt(" component %d: %.17g vs %.17g", q, X1[q], X2[q])); break; }
       if (Y.GetComponents() != y) c.violation("C06:WeightedRotation:Y-modified", what);
       c.count("weighted_rotations");
+      // every entry point on a vector that lives in user-supplied storage (the solver's state vectors do): the same bits
+      // as for a vector that owns its components, and the vector keeps using exactly that buffer
+      {
+        int pi = r.pick(d - 1), pj = pi + 1 + r.pick(d - 1 - pi); int cl; double th = gen_angle(r, cl), de = gen_angle(r, cl);
+        SU_vector A = make(a);
+        auto same = [&](const char* name, const SU_vector& got, const SU_vector& want) {
+          c.eval();
+          if (!same_bits(got, want)) c.violation(vh::fmt("C06:%s:d%d:differs-for-a-vector-on-user-storage", name, d), what);
+        };
+        try {
+          ExtVec E(a, d);
+          same("Rotate(i,j,theta,delta)", E.v.Rotate(pi, pj, th, de), A.Rotate(pi, pj, th, de));
+          same("Rotate(U)", E.v.Rotate(Vg.get()), A.Rotate(Vg.get()));
+          same("UTransform(U)", E.v.UTransform(Vg.get()), A.UTransform(Vg.get()));
+          same("UDaggerTransform(U)", E.v.UDaggerTransform(Vg.get()), A.UDaggerTransform(Vg.get()));
+          if (!E.bound() || E.image() != a) c.violation("C06:user-storage-operand-modified-or-rebound", what);
+          { ExtVec E1(a, d); E1.v.RotateToB1(k); same("RotateToB1", E1.v, B1); if (!E1.bound()) c.violation("C06:user-storage-operand-modified-or-rebound", what + " [RotateToB1]"); }
+          { ExtVec E0(a, d); E0.v.RotateToB0(k); same("RotateToB0", E0.v, B0); if (!E0.bound()) c.violation("C06:user-storage-operand-modified-or-rebound", what + " [RotateToB0]"); }
+          { ExtVec E2(a, d); E2.v.WeightedRotation(k, Y, kw); same("WeightedRotation(Const)", E2.v, X1); if (!E2.bound()) c.violation("C06:user-storage-operand-modified-or-rebound", what + " [WeightedRotation(Const)]"); }
+          { ExtVec E3(a, d); E3.v.WeightedRotation(Vg.get(), Y, Wg.get()); same("WeightedRotation(matrix)", E3.v, X2); if (!E3.bound()) c.violation("C06:user-storage-operand-modified-or-rebound", what + " [WeightedRotation(matrix)]"); }
+          { ExtVec EY(y, d); SU_vector X3 = make(a); X3.WeightedRotation(k, EY.v, kw); same("WeightedRotation(Const, weight on user storage)", X3, X1); }
+        } catch (std::exception& e) { c.violation(vh::fmt("C06:d%d:exception-for-a-vector-on-user-storage", d), what + ": " + e.what()); }
+        c.count("user_storage_operands");
+      }
       // the weight is passed by reference and may be the rotated vector itself
       if (r.coin(0.3)) {
         SU_vector Z1 = make(a), Z2 = make(a);
